@@ -519,6 +519,9 @@ func SpecSignedBy(c *VCase) (anyFP, allFP [][]byte, ok bool) {
 		sigs := taskSignatures(c.Image, si, t, c.Opts.Legacy || c.Opts.LegacyAll, facts)
 		seen := map[string]bool{}
 		for _, s := range sigs {
+			if ht := HashTypeOf(s); ht < 1 || ht > 5 {
+				return nil, nil, false // the signature metadata cannot be read: the listing fails
+			}
 			if fp := fingerprintOf(s); fp != nil && !seen[string(fp)] {
 				seen[string(fp)] = true
 				count[string(fp)]++
